@@ -31,5 +31,5 @@ try:
         print(pid, entry['rc'], entry.get('kind', ''), entry.get('what', '')[:150], flush=True)
 finally:
     subprocess.run(['git', '-C', '/repo', 'checkout', '--', '.'])
-json.dump({'seed': os.path.relpath(seed, V), 'checks': res, 'caught_by': [k for k, v in res.items() if v['rc'] != 0]}, open(os.path.join(seed, 'result.json'), 'w'), indent=1)
+json.dump({'seed': os.path.relpath(seed, V), 'checks': res, 'caught_by': [k for k, v in res.items() if v['rc'] != 0]}, open(os.path.join(seed, os.environ.get('SEEDTEST_OUT', 'result.json')), 'w'), indent=1)
 print('caught by', [k for k, v in res.items() if v['rc'] != 0])
